@@ -406,8 +406,10 @@ Proof. exact med_diff_shift. Qed.
    below a - 3 + eps (female: "deep negative") is called by its true sex -- provided the oracle meets the contract
    [sex_contract] AT THAT SAMPLE: whenever both median tests of a chromosome yield statistics f (female shift) and
    m (male shift), both are non-negative, the hypothesis whose shifted chromosome median is CLOSER to the autosomes'
-   (smaller difference of medians as compare_to_auto computes it) has the SMALLER statistic, and when that is the male
-   hypothesis f also exceeds the floor 0.01 of the denominator.  The contract asks nothing when a test yields no
+   (smaller difference of medians as compare_to_auto computes it) has the SMALLER statistic -- f <= m when the female
+   shift is the closer one (equality does occur: a female sample's chrY is below the autosomes under either shift, the
+   two tests see the same table), m < f when the male shift is, and then f also exceeds the floor 0.01 of the
+   denominator.  The contract asks nothing when a test yields no
    statistic.  1/4 because the levels are 1 apart: the centres are within eps of their levels, so the aligned shift
    leaves a difference of medians of at most 2 eps and the other one of at least 1 - 2 eps. *)
 Theorem C15_sex_bounded_noise : forall (gstat : mtable -> Q) eps a female hap build t,
@@ -425,7 +427,7 @@ Theorem C15_sex_contract_def : forall gstat auto_l auto_w vals w fs ms,
      mood_stat gstat auto_l (map (fun x => qadd x ms) vals) = Some m ->
      0 <= f /\ 0 <= m /\
      (med_diff auto_l auto_w (map (fun x => qadd x fs) vals) w < med_diff auto_l auto_w (map (fun x => qadd x ms) vals) w ->
-      f < m) /\
+      f <= m) /\
      (med_diff auto_l auto_w (map (fun x => qadd x ms) vals) w < med_diff auto_l auto_w (map (fun x => qadd x fs) vals) w ->
       m < f /\ lr_denominator_floor < f)).
 Proof. exact stat_contract_def. Qed.
